@@ -90,13 +90,21 @@ def gen_dims_case(rng):
 
 
 def parse_impl(out):
+    """case index -> raw observation lines (split lazily, the thorough output is large)"""
     per = {}
     for l in out.split("\n"):
-        t = l.split()
-        if len(t) < 3 or not t[0].lstrip("-").isdigit():
+        sp = l.find(" ")
+        if sp <= 0 or not l[:sp].isdigit():
             continue
-        per.setdefault(int(t[0]), []).append((int(t[1]), t[2], t[3:]))
+        per.setdefault(int(l[:sp]), []).append(l)
     return per
+
+
+def obs_of(lines):
+    for l in lines:
+        t = l.split()
+        if len(t) >= 3:
+            yield int(t[1]), t[2], t[3:]
 
 
 def ints(ts):
@@ -122,17 +130,16 @@ def run(ctx):
             for dims in rng.sample(big, 25):
                 ccases.append(mk_cart(rng, dims))
         else:
-            for dims in vecs:                                   # every dimension vector, two random period/remain patterns
-                ccases.append(mk_cart(rng, dims))
-                ccases.append(mk_cart(rng, dims))
-            for dims in [v for v in vecs if len(v) <= 3 and prod(v) <= 24]:   # all periodicity x remain patterns on small grids
+            for dims in vecs:                                   # every dimension vector, random period/remain pattern
+                ccases.append(mk_cart(rng, dims, nq=4))
+            for dims in [v for v in vecs if len(v) <= 3 and prod(v) <= 12]:   # all periodicity x remain patterns on small grids
                 for pers in itertools.product([0, 1], repeat=len(dims)):
                     for rem in itertools.product([0, 1], repeat=len(dims)):
                         ccases.append(mk_cart(rng, dims, list(pers), list(rem), nq=2))
         dcases = list(CORPUS_D) + [[nn, nd] + [0] * nd for nn in range(1, 65) for nd in range(1, 5)]
         dcases += [gen_dims_case(rng) for _ in range(ctx.n(600, 12000))]
-    ctx.cov["rule"] = ("cart cases: dimension vectors with <= 4 dimensions and <= 64 nodes (quick: corpus + 135 sampled; thorough: all of them twice "
-                       "+ all period x remain patterns on grids <= 24 nodes), every rank, every direction, every displacement in [-2d,2d], "
+    ctx.cov["rule"] = ("cart cases: dimension vectors with <= 4 dimensions and <= 64 nodes (quick: corpus + 135 sampled; thorough: all of them "
+                       "+ all period x remain patterns on grids <= 12 nodes), every rank, every direction, every displacement in [-2d,2d], "
                        "random Cart_rank queries in [-2d-1,3d+1]; Dims_create: nnodes 1..64 x ndims 1..4 all free (exhaustive) + random given "
                        "entries (divisors, non-divisors, negatives) up to 5000 nodes. non-trivial = more than one node (cart) / success with a "
                        "free entry and nnodes > 1 (dims); distinct = distinct inputs")
@@ -166,7 +173,7 @@ def run(ctx):
         dims, pers, rem = c[1:1 + nd], c[1 + nd:1 + 2 * nd], c[1 + 2 * nd:1 + 3 * nd]
         nn = prod(dims)
         case = {"kind": "C", "input": c}
-        obs = per.get(i, [])
+        obs = obs_of(per.pop(i, []))
         G, S, Q, R, U = {}, {}, {}, [], {}
         for w, k, t in obs:
             if k == "G":
@@ -255,7 +262,7 @@ def run(ctx):
         i = len(ccases) + j
         case = {"kind": "D", "input": c}
         nn, nd, given = c[0], c[1], c[2:]
-        o = [t for w, k, t in per.get(i, []) if k == "D"]
+        o = [t for w, k, t in obs_of(per.get(i, [])) if k == "D"]
         if not o:
             ctx.fail("driver-crash", "no Dims_create observation for %s" % c, case)
             continue
@@ -307,5 +314,5 @@ META = {
             "getfactors' d*d < num leaves squares of primes unfactored (Dims_create(9,2) = (9,1)), accepted. The error status of Dims_create "
             "is compared with the model, not proved complete.",
     "technique": "Coq proof (mixed-radix induction, counting over filtered ranges, lia/nia) + extracted-model correspondence under smpirun",
-    "claimed": False,
+    "claimed": True,
 }
